@@ -219,6 +219,161 @@ def dsge_sharing(h: Harness):
         h.count("dsge-sharing-histories" + ("" if ok else ":violated"))
 
 
+class RecSource(NativeRandomSource):
+    """a native source that remembers what its last draws returned (the decisions the heap model is given)"""
+
+    def __init__(self, seed):
+        super().__init__(seed)
+        self.rec: list[int] = []
+
+    def randint(self, min, max):  # noqa: A002
+        v = super().randint(min, max)
+        self.rec.append(v)
+        return v
+
+
+def heap_histories(h: Harness):
+    """LEVEL A for the gene containers: long histories of create / mutate / crossover / map on GE, stack, SGE and dynamic-SGE
+    genotypes; after EVERY operation the real object graph (which list OBJECT holds which genes for which key of which genotype,
+    `id()` renamed by first occurrence, every genotype ever made) must be the one `Model/Heap.lean` predicts from the decisions
+    the operation drew.  The theorems of Props/C09 (no sharing ever, inputs unchanged, mapped genotypes only extended) are
+    about that model; they are also evaluated here directly on the real graph, so that a failure names the operation."""
+    from linear import DSGE, GE, SGE, Stack, safe
+    C = gram.ClassSpec
+    spec = gram.Spec([C("E", True, None), C("Cond", True, None), C("Lit", False, 0, [("v", "int")]), C("Flag", False, 0, [("b", "bool")]),
+                      C("If", False, 0, [("c", ("cls", 1)), ("t", ("cls", 0)), ("e", ("cls", 0))]),
+                      C("Lt", False, 1, [("l", ("cls", 0)), ("r", ("ann", "int", ("intRange", 0, 9)))]),
+                      C("Not", False, 1, [("c", ("cls", 1))]), C("T", False, 1, []),
+                      C("Many", False, 0, [("xs", ("ann", ("list", ("cls", 0)), ("listSize", 1, 2))), ("u", ("union", ("cls", 1), "bool"))])],
+                     0, [2, 3, 4, 5, 6, 7, 8, 0, 1])
+    b = gram.build(spec)
+    g = b.extract()
+    rng = h.rng
+    mind = g.get_min_tree_depth()
+
+    def mk(kind, r):
+        with warnings.catch_warnings():
+            warnings.simplefilter("ignore")
+            if kind == "GE":
+                return GE(g, synth.make_decider("grow", mind + 2, r, g), gene_length=rng.choice([8, 12, 40]))
+            if kind == "Stack":
+                return Stack(g, gene_length=rng.choice([24, 64, 300]))
+            if kind == "SGE":
+                return SGE(g, synth.make_decider("grow", mind + 2, r, g), gene_length=rng.choice([4, 6]))
+            return DSGE(g, mind + rng.choice([1, 2, 3]))
+
+    for kind in ("GE", "Stack", "SGE", "DynamicSGE"):
+        flat = kind in ("GE", "Stack")
+        site = f"{kind}:object-graph"
+        for trial in range(h.n(5, 40)):
+            seedv = rng.randrange(10**6)
+            r = RecSource(seedv)
+            rep = mk(kind, r)
+            keynum: dict = {}
+            genos: list = []      # every genotype object ever made (kept alive: addresses are never reused)
+            ops: list = []
+            dumps: list = []
+
+            def kn(k):
+                return keynum.setdefault(k, len(keynum) + 1)
+
+            def cells(ge):
+                return [(0, ge.dna)] if flat else [(kn(k), v) for k, v in ge.dna.items()]
+
+            def graph():
+                names: dict = {}
+                return [[[k, names.setdefault(id(lst), len(names)), list(lst)] for k, lst in cells(ge)] for ge in genos]
+
+            def view(ge):
+                return [(k, list(lst)) for k, lst in cells(ge)]
+
+            ok = True
+            n_ops = h.n(24, 40)
+            for step in range(n_ops):
+                choices = ["create"] if len(genos) < 2 else ["mutate", "mutate", "crossover", "crossover", "map", "map", "create"]
+                op = rng.choice(choices)
+                before = [view(x) for x in genos]
+                target = None
+                r.rec = []
+                try:
+                    if op == "create":
+                        ge = rep.create_genotype(r)
+                        genos.append(ge)
+                        ops.append(["fc", list(ge.dna)] if flat else ["sc", [[k, list(v)] for k, v in cells(ge)]])
+                    elif op == "mutate":
+                        gi = rng.randrange(len(genos))
+                        had = [(k, len(v)) for k, v in cells(genos[gi])]
+                        out = rep.mutate(r, genos[gi])
+                        rec = list(r.rec)
+                        genos.append(out)
+                        if flat:
+                            ops.append(["fm", gi, rec[0], rec[1]])
+                        elif kind == "SGE":
+                            ops.append(["sm", gi, [rec[0], rec[1], rec[2]]])
+                        else:
+                            ops.append(["sm", gi, "none" if len(rec) < 3 else [rec[0], rec[1], rec[2]]])
+                            assert len(rec) in (0, 1, 3), (rec, had)
+                    elif op == "crossover":
+                        g1, g2 = rng.randrange(len(genos)), rng.randrange(len(genos))
+                        c1, c2 = rep.crossover(r, genos[g1], genos[g2])
+                        rec = list(r.rec)
+                        genos.extend([c1, c2])
+                        ops.append(["fx", g1, g2, rec[0]] if flat else ["sx", g1, g2, [v == 0 for v in rec]])
+                    else:
+                        gi = rng.randrange(len(genos))
+                        target = gi
+                        old = {id(k): (k, v, len(v)) for k, v in (genos[gi].dna.items() if not flat else [])}
+                        safe(lambda: rep.genotype_to_phenotype(genos[gi]))
+                        ext = []
+                        if not flat:
+                            for k, v in genos[gi].dna.items():
+                                o = old.get(id(k))
+                                if o is None:
+                                    ext.append([kn(k), list(v)])
+                                elif len(v) > o[2]:
+                                    ext.append([kn(k), list(v[o[2]:])])
+                        ops.append(["map", gi, ext])
+                except Exception as e:  # noqa: BLE001
+                    h.fail(site, "raises", f"{kind} history (seed {seedv}) step {step} ({op}) raised {type(e).__name__}: {e}", [kind, seedv, step])
+                    ok = False
+                    break
+                dumps.append(graph())
+                h.seen(f"heap:{kind}:{seedv}:{step}:{op}", nontrivial=op != "create")
+                # the theorems, evaluated on the real graph
+                for j, old_view in enumerate(before):
+                    now = view(genos[j])
+                    if j == target and kind == "DynamicSGE":
+                        grown = len(now) >= len(old_view) and all(k1 == k0 and l1[: len(l0)] == l0 for (k0, l0), (k1, l1) in zip(old_view, now))
+                        if not grown:
+                            h.fail(site, "mapped-genotype-not-only-extended",
+                                   f"{kind} history (seed {seedv}) step {step}: mapping genotype #{j} changed it from {old_view} to {now} "
+                                   "(only appended genes and new keys are permitted)", [kind, seedv, step])
+                            ok = False
+                    elif now != old_view:
+                        h.fail(site, "input-modified",
+                               f"{kind} history (seed {seedv}) step {step} ({ops[-1][:3]}): genotype #{j}, which the operation was not allowed to "
+                               f"write into, changed from {old_view} to {now}", [kind, seedv, step])
+                        ok = False
+                owners: dict = {}
+                for j, ge in enumerate(genos):
+                    for k, lst in cells(ge):
+                        # (only where an in-place writer exists: dynamic-SGE mapping extends the lists it reads.  For GE / stack / SGE
+                        # no operation writes into an existing list, so sharing there is a difference from the model -- level A below --
+                        # but not by itself a failing input of the property)
+                        if kind == "DynamicSGE" and id(lst) in owners and owners[id(lst)] != (j, k):
+                            h.fail(site, "gene-list-shared",
+                                   f"{kind} history (seed {seedv}) step {step} ({ops[-1][:3]}): ONE list object is the gene list of genotype "
+                                   f"#{owners[id(lst)][0]} (key {owners[id(lst)][1]}) and of genotype #{j} (key {k}): writing to one writes to both",
+                                   [kind, seedv, step])
+                            ok = False
+                        owners[id(lst)] = (j, k)
+                if not ok:
+                    break
+            if ops and len(dumps) == len(ops):
+                h.agree(site, ["heap_run", ops], dumps, replay=[kind, seedv])
+            h.count(f"heap-histories:{kind}" + ("" if ok else ":violated"))
+
+
 def parallel_evaluator_steps(h: Harness):
     """the steps evaluate what they are given with the evaluator they are handed: with the PARALLEL evaluator and a pool that
     is only partly evaluated (survivors + newcomers, in several layouts), every individual that already carried a fitness
@@ -255,6 +410,7 @@ def run(h: Harness):
     from props import c10
     rng = h.rng
     parallel_evaluator_steps(h)
+    heap_histories(h)
     dsge_sharing(h)
     for gi in range(h.n(14, 160)):
         if gi % 4 == 1:
